@@ -36,7 +36,7 @@ ASSUMPTIONS = [
     "path components are matched case-sensitively",
 ]
 BUDGET = {"quick": (200, 4), "thorough": (64000, 16)}
-REQUIRED = ["glob", "dir_pattern", "basename", "relpath_pattern", "ii_file", "nested", "child_after_parent", "x_file_and_dir", "multi_generation", "duplicate_pattern", "verify_dh", "sf_generation", "real_missing_next_to_excluded", "blank_in_pattern_file_line", "cli_pattern_on_verify_dh", "nested_history_folder_removed", "cli_pattern_on_verify_and_diff", "anchored_pattern", "renamed_then_excluded", "pattern_file_on_verify_dh"]
+REQUIRED = ["glob", "dir_pattern", "basename", "relpath_pattern", "ii_file", "nested", "child_after_parent", "x_file_and_dir", "multi_generation", "duplicate_pattern", "verify_dh", "sf_generation", "real_missing_next_to_excluded", "blank_in_pattern_file_line", "cli_pattern_on_verify_dh", "nested_history_folder_removed", "cli_pattern_on_verify_and_diff", "anchored_pattern", "renamed_then_excluded", "pattern_file_on_verify_dh", "pattern_introduced_by_-n_generation"]
 
 DEFAULTS = [".DS_Store", "ascmhl", "ascmhl/"]
 _first = "abcdefghijklmnopqrstuvwxyzABCDEFGHIJKLMNOPQRSTUVWXYZ0123456789_."
@@ -118,6 +118,9 @@ def _scn(draw):
                      "ii_newline": draw(st.booleans())})
     if dir_and_file_namesake:
         gens[0]["i"] = gens[0]["i"] + ["cache/"]
+    for g in gens:
+        # a generation made without directory hashes (-n) carries and applies patterns like any other
+        g["n"] = draw(st.sampled_from([False, False, False, True]))
     files = [p for p, d in entries if not d]
     for i in range(1, len(gens)):
         if draw(st.integers(0, 3)) == 0 and files:
@@ -192,7 +195,7 @@ def seal(w, root, g, tag):
         with open(fp, "w") as fh:
             fh.write("\n".join(g["ii"]) + ("\n" if g["ii_newline"] else ""))
         args += ["-ii", fp]
-    return w.create(root, g["formats"], extra=args)
+    return w.create(root, g["formats"], extra=args, flags=["-n"] if g.get("n") else [])
 
 
 def expected_list(prev, new):
@@ -494,6 +497,8 @@ def run_case(scn, ctx):
             feats.add("duplicate_pattern")
         if len(scn["gens"]) >= 2:
             feats.add("multi_generation")
+        if any(g.get("n") and (g["i"] or g["ii"]) for g in scn["gens"]):
+            feats.add("pattern_introduced_by_-n_generation")
         xf = any(not d for p, d in X)
         xd = any(d for p, d in X) or any("/" in p and matches(posixpath.dirname(p), eff) for p, d in X)
         if xf and xd:
